@@ -120,7 +120,101 @@ def g_scalar(rng, k):
         return "d:%016x" % g_f64(rng)
     raise ValueError(k)
 
+def g_time(rng):
+    r = rng.random()
+    if r < 0.15:
+        return "t:%016x" % 1
+    secs = rng.choice([0, 86400, 1479325446, 1500000000, 4294967295, rng.getrandbits(32),
+                       rng.randint(0, 4000000) * 60, rng.randint(0, 40000) * 86400])
+    frac = 0
+    if rng.random() < 0.5:
+        m = rng.getrandbits(rng.choice([1, 3, 8, 24]))
+        if m:
+            frac = m << rng.randint(0, 32 - m.bit_length())
+    t = (secs << 32) | frac
+    if t == 1:
+        t = 0
+    return "t:%016x" % t
+
+RUN_KINDS = "ihcTFsSfdrm"
+
+def g_run(rng, k, n):
+    """n slots of one type: constant or arithmetic"""
+    if k in "ih" and rng.random() < 0.6:
+        bits = 32 if k == "i" else 64
+        start = rng.randint(-1000, 1000)
+        step = rng.choice([1, -1, 2, -2, 3, 10, -7, 100])
+        return ["%s:%d" % (k, start + j * step) for j in range(n)]
+    if k == "c" and rng.random() < 0.6:
+        start = rng.randint(48, 100)
+        step = rng.choice([1, -1, 2])
+        return ["c:%d" % (start + j * step) for j in range(n)]
+    v = g_scalar(rng, k)
+    return [v] * n
+
+def g_elems(rng, k, n):
+    """n array elements of type k (T and F may mix), with runs"""
+    out = []
+    while len(out) < n:
+        left = n - len(out)
+        if rng.random() < 0.4:
+            m = min(left, rng.choice([2, 3, 4, 5, 5, 6, 7, 8]))
+            out += g_run(rng, k, m)
+        else:
+            kk = rng.choice("TF") if k in "TF" else k
+            out.append(g_scalar(rng, kk))
+    return out
+
+def g_array(rng):
+    k = rng.choice("ihcTFsSfdrmb")
+    n = rng.randint(0, 8)
+    el = g_elems(rng, k, n)
+    ty = ord(el[-1][0]) if el else 32
+    return ["a:%d:%d" % (ty, len(el))] + el
+
+def gen_struct(rng, tier, dist, n):
+    """lists with runs around the compression threshold, arrays, time tags, whole messages"""
+    out = []
+    def bump(k):
+        dist[k] = dist.get(k, 0) + 1
+    for _ in range(n):
+        ll = rng.choice([10, 20, 40, 80, 80, 120, rng.randint(10, 120)])
+        prec = rng.choice([0, 1, 2, 2, 3, 6, 9])
+        compress = rng.choice([0, 1, 1])
+        vals = []
+        kind = rng.random()
+        parts = rng.choice([1, 1, 2, 3, 4])
+        for _p in range(parts):
+            q = rng.random()
+            if q < 0.35:
+                k = rng.choice(RUN_KINDS)
+                m = rng.choice([2, 3, 4, 5, 5, 6, 7, 9, 12])
+                vals += g_run(rng, k, m); bump("run:%s" % k); bump("runlen=%d" % m)
+            elif q < 0.6:
+                vals += g_array(rng); bump("array")
+            elif q < 0.75:
+                vals.append(g_time(rng)); bump("timetag")
+            else:
+                vals.append(g_scalar(rng, rng.choice(SCALAR_KINDS))); bump("scalar")
+        if compress:
+            # a run that mixes 0.0 and -0.0 is compressed to its first element
+            # (class signed-zero-run, see notes/C10.md): not generated
+            vals = [("f:00000000" if v == "f:80000000" else
+                     "d:0000000000000000" if v == "d:8000000000000000" else v) for v in vals]
+        bump("compress=%d" % compress)
+        if rng.random() < 0.25:
+            addr = "/" + "/".join("".join(rng.choice("abcxyz019_#*?") for _ in range(rng.randint(1, 6)))
+                                  for _ in range(rng.randint(1, 3)))
+            bump("message")
+            out.append("xm %d %d %d 1 %s %s" % (ll, prec, compress, ";".join(vals), addr.encode().hex()))
+        else:
+            out.append("xp %d %d %d 1 %s" % (ll, prec, compress, ";".join(vals)))
+    return out
+
 def gen(rng, tier, dist):
+    return gen_scalar(rng, tier, dist) + gen_struct(rng, tier, dist, 2500 if tier == "quick" else 120000)
+
+def gen_scalar(rng, tier, dist):
     n = 3000 if tier == "quick" else 150000
     out = []
     def bump(k):
@@ -158,9 +252,53 @@ def canon(case, line):
     # the model does not compute rtosc_arg_vals_eq
     return " ".join(t for t in line.split(" ") if not t.startswith("EQ=") and not t.startswith("A="))
 
+def _wrap(v, bits):
+    m = 1 << bits
+    v %= m
+    return v - m if v >= m >> 1 else v
+
+def _item(toks, pos):
+    """one element starting at toks[pos]: (expanded values, slots used)"""
+    t = toks[pos]
+    if t.startswith("a:"):
+        n = int(t.split(":")[2])
+        vals, used = _items(toks, pos + 1, n)
+        return [("a", tuple(vals))], 1 + n
+    if t.startswith("R:"):
+        _, num, hd = t.split(":")
+        num, hd = int(num), int(hd)
+        if hd:
+            delta, start = toks[pos + 1], toks[pos + 2]
+            k = start[0]
+            if k in "ich":
+                bits = 64 if k == "h" else 32
+                d, s0 = int(delta.split(":")[1]), int(start.split(":")[1])
+                seq = ["%s:%d" % (k, _wrap(s0 + j * d, bits)) for j in range(num)]
+            else:
+                seq = [("unexpected-delta-range", delta, start, num)]
+            if num == 0:
+                seq = [("endless", delta, start)]
+            return seq, 3
+        sv, used = _item(toks, pos + 1)
+        if num == 0:
+            return [("endless", None, tuple(sv))], 1 + used
+        return sv * num, 1 + used
+    return [t], 1
+
+def _items(toks, pos, nslots):
+    out, used = [], 0
+    while used < nslots:
+        v, u = _item(toks, pos + used)
+        out += v
+        used += u
+    return out, used
+
 def expand(vals):
-    """flat slot list (strings) -> nested plain values; ranges expanded"""
-    return vals
+    """flat slot list (strings) -> plain values, ranges expanded, arrays nested"""
+    try:
+        return _items(vals, 0, len(vals))[0]
+    except (IndexError, ValueError):
+        return [("malformed", tuple(vals))]
 
 def spec_check(case, impl):
     f = case.split(" ")
@@ -172,9 +310,11 @@ def spec_check(case, impl):
     if int(d["W"]) != len(text):
         return "length: printer returned %s, the text has %d bytes" % (d["W"], len(text))
     if not vals:
-        if int(d["C"]) != 0:
+        if int(d["C"]) != 0 and f[0] in ("pp", "xp"):
             return "count: empty list printed as %r counted as %s values" % (text, d["C"])
         return None
+    if f[0] in ("pm", "xm") and d.get("A") != f[6]:
+        return "address: %r scanned back as %s" % (text, d.get("A"))
     c = int(d["C"])
     if c <= 0:
         return "check: the syntax checker rejects the printed text %r (count %d)" % (text, c)
@@ -200,6 +340,12 @@ def nontrivial(case, impl):
     return (b"\n" in text or b"\\" in text or b"-" in text or b"(" in text)
 
 def classify(case, impl, failure):
+    f = case.split(" ")
+    vals = f[5].split(";")
+    if f[3] != "0" and failure.startswith("values") and (
+            ("f:00000000" in vals and "f:80000000" in vals) or
+            ("d:0000000000000000" in vals and "d:8000000000000000" in vals)):
+        return "signed-zero-run"
     return None
 
 TECHNIQUE = ("Coq proofs about a token-level model of the printer, the syntax checker and the scanner "
